@@ -46,6 +46,9 @@ func runC06(c *core.Ctx) {
 	rulePoolPutOwnership(c, "C06-R17")
 	ruleASCII85PendingOutput(c, "C06-R18")
 	ruleCCITTByteAlign(c, "C06-R19")
+	ruleCCITTRunLoops(c, "C06-R20")
+	ruleCCITTLookahead(c, "C06-R21")
+	ruleCCITTTagAfterEOL(c, "C06-R22")
 	ruleAliasHygiene(c, [3]string{"C06-R12", "C06-R13", "C06-R14"}, "pdf/internal/filter/lzw", "pdf/internal/filter/predict", "pdf/internal/filter/runlength", "pdf/internal/filter/ccittfax", "pdf/internal/filter/ascii85", "pdf/internal/filter/asciihex")
 }
 
@@ -97,6 +100,9 @@ func runC07(c *core.Ctx) {
 	rulePNGAverage(c, "C07-R8")
 	ruleCCITTTables(c, "C07-R2")
 	ruleBitAccumulatorReset(c, "C07-R9")
+	// foreign Group 3/4 data end rows with make-up codes and omit end-of-block patterns as well
+	ruleCCITTRunLoops(c, "C07-R10")
+	ruleCCITTLookahead(c, "C07-R11")
 }
 
 func ruleFilterNames(c *core.Ctx) {
